@@ -18,6 +18,7 @@ L3 = "FteikVerif.Proofs.GenEquivLoops3"
 W2 = "FteikVerif.Proofs.GenEquivWhole2"
 W2R = "FteikVerif.Proofs.GenWholeReal"
 W3 = "FteikVerif.Proofs.GenEquivWhole3"
+GL = "FteikVerif.Proofs.GenList"
 SRCW3 = "FteikVerif.Props.SourceWhole3"
 SRCW = "FteikVerif.Props.SourceWhole2"
 SRCS = "FteikVerif.Props.SourceSolver"
@@ -45,6 +46,8 @@ K2 = ["F2.t_ana", "F2.t_anad", "F2.delta", "F2.sweep", "Common.norm2d", "F2.swee
 K3 = ["F3.t_ana", "F3.t_anad", "F3.sweep", "Common.norm3d", "F3.sweep3d", "F3.fteik3d"]
 GENSOLVER = ["Fteik.gen_fteik2d_head", "Fteik.gen_fteik2d_error_iff", "Fteik.gen_fteik2d_error_kind", "Fteik.gen_fteik2d_vzero",
              "Fteik.gen_fteik3d_head", "Fteik.gen_fteik3d_error_iff", "Fteik.gen_fteik3d_error_kind"]
+GENLIST = ["Fteik.foldlM_slots", "Fteik.gen_list2_ok_slots", "Fteik.gen_list2_error", "Fteik.gen_list3_ok_slots",
+           "Fteik.gen_list3_error"]
 KI = ["I2._interp2d", "I3._interp3d"]
 KV = ["V2._vinterp2d", "V3._vinterp3d", "Common.dist2d", "Common.dist3d", "Common.norm2d", "Common.norm3d"]
 
@@ -61,7 +64,9 @@ TABLE = {
     "C18": ([S2, S3, L2, L3, IN, RE, W2, W3, W2R], SOLVER2 + SOLVER3 + WHOLE2 + WHOLE3 + INTERP + ["Fteik.farLaw_real"], K2 + K3 + KI),
     # the whole solvers as translated: decision logic of the domain check, vzero
     "C03": ([GS], GENSOLVER, ["F2.fteik2d", "F3.fteik3d"]),
-    "C13": ([GS], GENSOLVER, ["F2.fteik2d", "F3.fteik3d"]),
+    "C13": ([GS, GL], GENSOLVER + GENLIST, ["F2.fteik2d", "F3.fteik3d", "F2.fteik2d_vectorized", "F3.fteik3d_vectorized"]),
+    # the list ("vectorized") solvers as translated: a list call is the map of the single calls
+    "C08": ([GL], GENLIST, ["F2.fteik2d", "F3.fteik3d", "F2.fteik2d_vectorized", "F3.fteik3d_vectorized"]),
     # structure only: insensitive to the operator formulas
     "C07": ([ST], STRUCT, ["F2.sweep", "F3.sweep"]),
     "C11": ([ST], GRADI, ["F2.sweep", "F3.sweep"]),
